@@ -976,6 +976,16 @@ theorem killed_offline_id_fails : ¬ killed_offline_id := by
 theorem commit_applies (r : Start.Raft) (e : Start.Entry) :
     Start.startR (Start.commit r e) = Start.applyE (Start.startR r) e := Start.startR_commit r e
 
+/-- "a snapshot with a higher index than part of the log": the started peer ignores every log entry at or before the
+    snapshot index, whatever it says — only the suffix behind the snapshot is replayed (so `SnapshotSave`'s choice of the
+    index decides how much of a log that is still in the folder comes back) -/
+theorem start_ignores_log_before_snapshot (i : Nat) (s : List Nat) (l : List (Nat × Start.Entry)) :
+    Start.startR { snap := some (i, s), log := l } =
+    Start.startR { snap := some (i, s), log := l.filter (fun x => decide (i < x.1)) } := by
+  simp only [Start.startR]; exact (Start.replay_filter s i l).symm
+
+example : Start.startR { snap := some (3, [7]), log := [(1, .cfg), (2, .pin 1), (3, .pin 2), (4, .pin 5), (5, .unpin 7)] } = [5] := by decide
+
 end StartTheorems
 
 /-! ## a data folder holding several snapshots and leftovers (round 8b, `Model/C14Snaps.lean`) -/
@@ -1064,6 +1074,23 @@ theorem newest_is_highest_index_fails : ¬ newest_is_highest_index := by
 def newest_is_oldest : Prop := ∀ l : List Snaps.Snap, Snaps.newest l = Snaps.oldest l
 theorem newest_is_oldest_fails : ¬ newest_is_oldest := by
   intro h; have := h [⟨1, 2, 1⟩, ⟨1, 9, 2⟩]; revert this; decide
+
+/-- SEMANTIC tie (regenerated from the syntax tree of consensus/raft/raft.go on every run, `Gen.Sem`): the facts the folder
+    models rest on — `latestSnapshot` opens element 0 of the newest-first list (`Snaps.newest`), `SnapshotSave` with a snapshot
+    present cleans and copies `meta.Index`/`meta.Term` (`Snaps.save`, `Start.snapshotSave`), its fresh-start branch writes
+    (term 1, index 2) and does not clean, `CleanupRaft` removes exactly the folder without readable snapshot and returns.
+    A harmless rewrite changes none of these; a change of any of them fails here (and the `snaps`/`start` suites give the input). -/
+theorem gen_sem_snapshot_folder :
+    (Gen.Sem.latestOpenIndex, Gen.Sem.saveMetaBranchCleans, Gen.Sem.saveMetaIndexExpr, Gen.Sem.saveMetaTermExpr,
+     Gen.Sem.saveFreshIndex, Gen.Sem.saveFreshTerm, Gen.Sem.cleanupEmptyCond, Gen.Sem.cleanupEmptyArm) =
+    (some 0, true, "meta.Index", "meta.Term", some 2, some 1, "meta == nil && err == nil",
+     ["os.RemoveAll(dataFolder)", "return"]) := rfl
+
+/-- … and the model's fresh-start snapshot IS the one with the regenerated constants -/
+theorem gen_sem_fresh_matches_model (c : Nat) :
+    Snaps.latest (Snaps.save none c).1 =
+      some ⟨Gen.Sem.saveFreshTerm.getD 0, Gen.Sem.saveFreshIndex.getD 0, c⟩ := by
+  simp [Snaps.save, Snaps.latest, Snaps.snapsOf, Snaps.newest, Snaps.pick, Gen.Sem.saveFreshTerm, Gen.Sem.saveFreshIndex]
 
 end SnapsTheorems
 
